@@ -14,9 +14,9 @@ import (
 // Dimensions of a scenario.
 var (
 	CTDirs       = []string{"g2m", "m2g"} // goroutine writes & main sinks / main writes & goroutine sinks
-	CTTransports = []string{"field", "map", "slice", "chan", "global", "captured", "box", "nested", "copy", "append"}
+	CTTransports = []string{"field", "map", "slice", "chan", "global", "captured", "box", "nested", "copy", "append", "selectsend"}
 	CTShares     = []string{"goarg", "closure", "global", "chanptr", "holder"}
-	CTVias       = []string{"direct", "callee", "method", "deferred", "inline"}
+	CTVias       = []string{"direct", "callee", "method", "deferred", "inline", "srchelper"}
 )
 
 // TScenario is one generated case.
@@ -66,6 +66,8 @@ func ctPut(tr, c, v string, n int) string {
 		return fmt.Sprintf("%s.ss[0] = %s", c, v)
 	case "chan":
 		return fmt.Sprintf("%s.ch <- %s", c, v)
+	case "selectsend":
+		return fmt.Sprintf("select {\n\tcase %s.ch <- %s:\n\tdefault:\n\t}", c, v)
 	case "global":
 		return fmt.Sprintf("gs%d = %s", n, v)
 	case "captured":
@@ -91,7 +93,7 @@ func ctGet(tr, c string, n int) string {
 		return "x := " + c + ".ms[\"k\"]"
 	case "slice":
 		return "x := " + c + ".ss[0]"
-	case "chan":
+	case "chan", "selectsend":
 		return "x := \"\"\n\tselect {\n\tcase v := <-" + c + ".ch:\n\t\tx = v\n\tdefault:\n\t}"
 	case "global":
 		return fmt.Sprintf("x := gs%d", n)
@@ -134,13 +136,22 @@ func RenderConcTaint(scs []*TScenario) string {
 			w("var gc%d *C\n", n)
 		}
 		// writing side: a function `put<n>(c *C)`, possibly through a helper
-		putStmt := func(indent string) {
-			w("%sv := source_%d()\n", indent, n)
+		if sc.Via == "srchelper" {
+			w("func getsrc_%d() string {\n\treturn source_%d()\n", n, n)
 			sc.SrcLine = line - 1
+			w("}\n")
+		}
+		putStmt := func(indent string) {
+			if sc.Via == "srchelper" {
+				w("%sv := getsrc_%d()\n", indent, n)
+			} else {
+				w("%sv := source_%d()\n", indent, n)
+				sc.SrcLine = line - 1
+			}
 			w("%s%s\n", indent, ctPut(sc.Transport, "c", "v", n))
 		}
 		switch sc.Via {
-		case "inline":
+		case "inline", "srchelper":
 			// the creating goroutine's side is written directly into the scenario function (below)
 			if sc.Dir == "g2m" {
 				w("func put%d(c *C) {\n", n)
@@ -167,7 +178,8 @@ func RenderConcTaint(scs []*TScenario) string {
 			w("\tdefer func() {\n\t\t%s\n\t}()\n}\n", ctPut(sc.Transport, "c", "v", n))
 		}
 		// reading side
-		if !(sc.Via == "inline" && sc.Dir == "g2m") {
+		inl := sc.Via == "inline" || sc.Via == "srchelper"
+		if !(inl && sc.Dir == "g2m") {
 			w("func get%d(c *C) {\n\t%s\n\tsink_%d(x)\n", n, ctGet(sc.Transport, "c", n), n)
 			sc.SinkLine = line - 1
 			w("}\n")
@@ -239,7 +251,7 @@ func RenderConcTaint(scs []*TScenario) string {
 				sc.SinkLine = line - 1
 			}
 		}
-		if sc.Via == "inline" {
+		if inl {
 			if sc.Dir == "g2m" {
 				if sc.Sync {
 					w("\t<-done\n")
